@@ -53,6 +53,10 @@ type instCfg struct {
 	Login string `json:"login"`
 	Pass  string `json:"pass"`
 	Cors  string `json:"cors"` // "" = CORS off, otherwise CORS_ALLOW_ORIGIN
+	// Source: where the credentials come from. "" = both from QRYN_LOGIN / QRYN_PASSWORD; "file" = both from the
+	// JSON config file (-config); "file+env-password" / "file+env-login" = both in the file, one of them overridden
+	// from the environment (CLOKI_PASSWORD / QRYN_LOGIN) - Login/Pass are always the EFFECTIVE credentials
+	Source string `json:"source,omitempty"`
 }
 
 type route struct {
@@ -283,8 +287,29 @@ func startOnce(c *run.Ctx, bin string, cfg instCfg) (in *instance, retry bool) {
 		}
 		env = append(env, e)
 	}
+	env = append(env, "MODE="+cfg.Mode)
+	switch cfg.Source {
+	case "":
+		env = append(env, "QRYN_LOGIN="+cfg.Login, "QRYN_PASSWORD="+cfg.Pass)
+	default:
+		fileLogin, filePass := cfg.Login, cfg.Pass
+		switch cfg.Source {
+		case "file+env-password":
+			filePass = "stale-" + cfg.Pass // the file still holds the old secret, the environment the rotated one
+			env = append(env, "CLOKI_PASSWORD="+cfg.Pass)
+		case "file+env-login":
+			fileLogin = "old-" + cfg.Login
+			env = append(env, "QRYN_LOGIN="+cfg.Login)
+		}
+		doc, _ := json.Marshal(map[string]any{"auth_settings": map[string]any{"basic": map[string]any{"username": fileLogin, "password": filePass}}})
+		cf := filepath.Join(dir, "qryn.json")
+		if err := os.WriteFile(cf, doc, 0600); err != nil {
+			c.Note("cannot write config file: " + err.Error())
+			return nil, false
+		}
+		cmd.Args = append(cmd.Args, "-config", cf)
+	}
 	env = append(env,
-		"MODE="+cfg.Mode, "QRYN_LOGIN="+cfg.Login, "QRYN_PASSWORD="+cfg.Pass,
 		"key=true", // boolEnv reads the variable literally named `key`: skips initDB
 		"VERIF_NO_DB_HEALTHCHECK=1", "VERIF_ROUTES_OUT="+routesOut, "VERIF_EXIT_ON_STDIN_EOF=1",
 		"CLICKHOUSE_SERVER=127.0.0.1", fmt.Sprintf("CLICKHOUSE_PORT=%d", srv.Port()), "CLICKHOUSE_DB=qryn",
@@ -1141,10 +1166,16 @@ func configs(c *run.Ctx) []instCfg {
 			out = append(out, k)
 		}
 	}
+	// credentials from the config file, one of them overridden from the environment (a rotated secret, a login
+	// injected by the deployment), and from the file alone
+	out = append(out,
+		instCfg{Mode: "reader", Name: "C", Login: b.Login, Pass: "Rot" + randWord(c, "passC", 6), Source: "file+env-password"},
+		instCfg{Mode: "writer", Name: "D", Login: "dep" + randWord(c, "loginD", 4), Pass: b.Pass, Source: "file+env-login"},
+		instCfg{Mode: "reader", Name: "E", Login: b.Login, Pass: b.Pass, Source: "file", Cors: "*"})
 	return out
 }
 
-const rule = "real binary (-tags verif) x {writer,reader} x {cfg A: awkward credentials + CORS on, cfg B: plain + CORS off}; " +
+const rule = "real binary (-tags verif) x {writer,reader} x {cfg A: awkward credentials + CORS on, cfg B: plain + CORS off} plus cfg C/D/E: credentials in the JSON config file with the password / the login overridden from the environment / from the file alone; " +
 	"for every dumped route x registered method x bad Authorization class x {Accept-Encoding: gzip} x {Origin}: status 401 " +
 	"(400 allowed for a header that is not a well-formed Basic <base64 user:pass>), answer does not carry the handler's body, " +
 	"no Query packet reaches the fake ClickHouse between request and answer (reproduced 4/4 before it counts); OPTIONS on routes " +
